@@ -56,7 +56,9 @@ func (c *Ctx) add(rule, construct string, p token.Pos, st Status, detail string,
 	return o
 }
 
-func (c *Ctx) ok(rule, construct string, p token.Pos, detail string) { c.add(rule, construct, p, Discharged, detail) }
+func (c *Ctx) ok(rule, construct string, p token.Pos, detail string) {
+	c.add(rule, construct, p, Discharged, detail)
+}
 func (c *Ctx) bad(rule, construct string, p token.Pos, detail string, path ...string) {
 	c.add(rule, construct, p, Violated, detail, path...)
 }
